@@ -119,7 +119,7 @@ type C11Rule struct {
 	Ops     []C11Op
 }
 
-var C11BeginKinds = []string{"none", "getline", "argv1", "exit", "getlinev", "argc", "append"}
+var C11BeginKinds = []string{"none", "getline", "argv1", "exit", "getlinev", "argc", "append", "argvsplit", "argvfunc", "argvdelete"}
 var C11EndKinds = []string{"trace", "exit", "getline"}
 
 // C11Build renders a complete program.
@@ -140,6 +140,13 @@ func C11Build(begin, end string, rules []C11Rule, lean bool) string {
 		sb.WriteString(`BEGIN { ARGC = 2; tr("B.0:-:-:s") }` + "\n")
 	case "append":
 		sb.WriteString(`BEGIN { ARGV[ARGC++] = "A"; tr("B.0:-:-:s") }` + "\n")
+	case "argvsplit":
+		// the whole operand list replaced through split() (a new array value, not element edits)
+		sb.WriteString(`BEGIN { ARGC = split("B A", ARGV) + 1; tr("B.0:-:-:s") }` + "\n")
+	case "argvfunc":
+		sb.WriteString(`function setops(arr) { return split("A", arr) }` + "\n" + `BEGIN { ARGC = setops(ARGV) + 1; tr("B.0:-:-:s") }` + "\n")
+	case "argvdelete":
+		sb.WriteString(`BEGIN { delete ARGV[1]; tr("B.0:-:-:s") }` + "\n")
 	default:
 		panic("c11 begin " + begin)
 	}
